@@ -170,10 +170,10 @@ class RefRun:
                 self.ops.append(rec)
         return body
 
-    def run(self, prefix=(), rng=None, p_switch=0.0):
+    def run(self, prefix=(), rng=None, p_switch=0.0, max_switch=None):
         from dulwich.refs import DiskRefsContainer
         s = sched.Scheduler(self.world, {a: self.actor(a, names) for a, names in enumerate(self.actors)},
-                            prefix, rng=rng, p_switch=p_switch)
+                            prefix, rng=rng, p_switch=p_switch, max_switch=max_switch)
         with sched.Interposer(self.world):
             s.run()
         self.sched = s
@@ -437,7 +437,16 @@ def run(ctx):
             r.sched.run_obj = r
             return r.sched
         names = "+".join(sorted(n for a in actors for n in a))
-        for s in sched.explore(run_once, max_preempt=maxp, limit=limit, rng=ctx.rng):
+
+        def run_rand(i, layout=layout, actors=actors):
+            # uniformly placed preemptions (the DFS, when cut by its limit, favours late ones)
+            r = RefRun(ctx, layout, actors)
+            r.run((), rng=ctx.rng, p_switch=0.12, max_switch=maxp + 1)
+            r.sched.run_obj = r
+            return r.sched
+        import itertools
+        nrand = ctx.pick(25, 400) if limit else 0
+        for s in itertools.chain(sched.explore(run_once, max_preempt=maxp, limit=limit, rng=ctx.rng), sched.sample(run_rand, nrand)):
             r = s.run_obj
             tid += 1
             t = r.trace(tid)
